@@ -181,6 +181,9 @@ def stream_simple(name, producer_script, harness):
         work = ENV['VERIF_WORK']
         res, fails = run_stream(ENV, ['python3', os.path.join(ROOT, 'gen', producer_script), tier, '{shard}', '{nshards}'], os.path.join(os.path.dirname(work), 'asan', harness), ['--tier', tier, '--sub', name])
         agg = merge_stream_results(name, res); agg['samples'] = [{'producer': 'gen/' + producer_script}]
+        c = agg.get('counters', {})
+        for key in ('shapings_compared', 'segments_compared'):
+            if key in c: agg['states'] = c[key]; agg['transitions'] = c[key]; agg['validated'] = c[key]
         for f in fails: f['_mode'] = 'asan'; f['_bin'] = harness; f['_replay_py'] = 'checks_py'; f['_differential'] = 'stream'; f['_args'] = ['--tier', tier]
         return [agg], fails, (1 if fails else 0), ''
     return step
